@@ -10,7 +10,7 @@
     (the budget of each evaluation pass).  What is proved is therefore about the
     scheduler's decisions, not about pipeline timing. *)
 From Coq Require Import List Arith NArith Bool Lia.
-From VCu Require Import Sched SchedProofs SchedEmuTie.
+From VCu Require Import Sched SchedProofs SchedEmuTie Smem.
 From VSys Require EmuLoop.
 Import ListNotations.
 
@@ -109,6 +109,22 @@ Proof.
   apply done_ok_run, done_ok_init.
 Qed.
 Print Assumptions waitcnt_sound.
+
+(** A scalar load is cut into one read request per 64-byte line it touches
+    (executeSMEMLoad).  For every address and size: every request but the one
+    generated last carries CanWaitForCoalesce and the last one does not, so
+    that - the scalar memory answering in order - the reply that decrements
+    the wait counter (the scalar [ERsp] of the automaton) is the reply to the
+    last request: an instruction counts as complete only when all of its line
+    requests have been answered.  The requests cover exactly the requested
+    bytes and none crosses a line. *)
+Theorem smem_closing_request_is_last : forall addr size,
+  (0 < size)%N ->
+  closing_last (map flag (smem_reqs addr size)) /\
+  fold_right (fun r n => (bytes r + n)%N) 0%N (smem_reqs addr size) = size /\
+  Forall (fun r => (0 < bytes r)%N /\ (fst (fst r) mod 64 + bytes r <= 64)%N) (smem_reqs addr size).
+Proof. exact Smem.smem_closing_request_is_last. Qed.
+Print Assumptions smem_closing_request_is_last.
 
 (** Pipeline flush (ComputeUnit.flushPipeline): the outstanding-access counts,
     the PC and the barrier generation of every wavefront are unchanged (the
